@@ -452,6 +452,20 @@ findInsertionPointBinarySearch(
 
 
 
+// Normalize so that a document node, or a document fragment
+// node, owns itself, which is not how DOM works...
+inline const XalanNode*
+getOwner(const XalanNode&   node)
+{
+    const XalanNode::NodeType   theType = node.getNodeType();
+
+    return theType == XalanNode::DOCUMENT_NODE ||
+           theType == XalanNode::DOCUMENT_FRAGMENT_NODE ?
+                &node : node.getOwnerDocument();
+}
+
+
+
 template<class PredicateType>
 inline bool
 findInsertionPointLinearSearch(
@@ -469,6 +483,10 @@ findInsertionPointLinearSearch(
 
     NodeListIteratorType    current(begin);
 
+    const XalanNode* const  theOwner = getOwner(*node);
+
+    bool    fFoundOwner = false;
+
     // Loop, looking for the node, or for a
     // node that's before the one we're adding...
     while(current != end)
@@ -483,6 +501,20 @@ findInsertionPointLinearSearch(
 
             break;
         }
+        else if (getOwner(*child) != theOwner)
+        {
+            if (fFoundOwner == true)
+            {
+                // We're past the nodes of the node's document, so
+                // this is the insertion point.  Nodes of different
+                // documents are never interleaved.
+                break;
+            }
+            else
+            {
+                ++current;
+            }
+        }
         else if (isNodeAfterPredicate(*node, *child) == false)
         {
             // We found the insertion point...
@@ -490,6 +522,8 @@ findInsertionPointLinearSearch(
         }
         else
         {
+            fFoundOwner = true;
+
             ++current;
         }
     }
@@ -497,20 +531,6 @@ findInsertionPointLinearSearch(
     insertionPoint = current;
 
     return fInsert;
-}
-
-
-
-// Normalize so that a document node, or a document fragment
-// node, owns itself, which is not how DOM works...
-inline const XalanNode*
-getOwner(const XalanNode&   node)
-{
-    const XalanNode::NodeType   theType = node.getNodeType();
-
-    return theType == XalanNode::DOCUMENT_NODE ||
-           theType == XalanNode::DOCUMENT_FRAGMENT_NODE ?
-                &node : node.getOwnerDocument();
 }
 
 
